@@ -116,7 +116,15 @@ func (r *rcRun) submit(i int) {
 
 // rcExecute runs one execution of the configuration; call it from a scenario body.
 func rcExecute(cfg *rcCfg) *rcRun {
+	var r *rcRun
+	return rcExecuteInto(cfg, &r)
+}
+
+// rcExecuteInto publishes the run object before the execution starts, so that observers see
+// it even when the execution is aborted (library panic, deadlock).
+func rcExecuteInto(cfg *rcCfg, out **rcRun) *rcRun {
 	r := &rcRun{cfg: cfg}
+	*out = r
 	r.net = env.NewNet()
 	r.broker = env.NewBroker(r.net)
 	r.broker.Faults = cfg.Faults
